@@ -15,6 +15,7 @@ import drv_moon
 import drv_sun
 import drv_orbit
 import drv_kepler
+import drv_earth
 
 YMIN, YMAX = -4712, 6000
 
@@ -560,4 +561,32 @@ def plan_C11(tier, seed):
                      "continuity across e = 0.95 means a relative step below 3e-4 (the two approximations differ by 1.4e-4 there)"])
 
 
-PLANS = {"C11": plan_C11, "C07": plan_C07, "C14": plan_C14, "C15": plan_C15, "C13": plan_C13, "C12": plan_C12, "C17": plan_C17, "C02": plan_C02, "C03": plan_C03, "C04": plan_C04, "C10": plan_C10, "C01": plan_C01, "C16": plan_C16, "C19": plan_C19}
+def _nt_c18(ev):
+    k = ev["k"]
+    if k == "ell":
+        return (k, ev["ell"], ev["latf"], ev["hf"])
+    if k == "dist":
+        return (k, ev["ell"], tuple(ev["p"]))
+    return (k, ev["raf"], ev["decf"], ev["latf"], ev["distf"], ev["haf"], ev["hf"])
+
+
+def plan_C18(tier, seed):
+    T = ("Trace_Ellipsoid", "Trace.cfg")
+    ne, nlat, nd, per, npar = (4, 300, 6, 700, 4) if tier == "quick" else (16, 6000, 16, 12000, 16)
+    sh = [Shard("ell_%02d" % i, drv_earth.gen_ell, dict(seed=seed, shard=i, nlat=nlat, nuser=2), *T) for i in range(ne)]
+    sh += [Shard("dist_%02d" % i, drv_earth.gen_dist, dict(seed=seed, shard=i, n=per, nuser=3), *T) for i in range(nd)]
+    sh += [Shard("par_%02d" % i, drv_earth.gen_par, dict(seed=seed, shard=i, n=per), *T) for i in range(npar)]
+    return dict(
+        mc=[], shards=sh, level="model_checking", exhaustive=False, nontrivial=_nt_c18,
+        rule="Per ellipsoid (IAU76, WGS84 and seeded user ellipsoids with f in [0, 0.01], half of them reached through Earth.set()): "
+             "latitudes -90..90 incl. poles, equator, +-1e-9 and a seeded grid, heights -500..9000 m, in increasing latitude: TLC "
+             "checks the meridian-ellipse identity, the height term, rp = a rho cos phi', the curvature end values b^2/a and a^2/b "
+             "and its monotonicity towards the poles (action property), linear speed. Distance: random, equatorial, same-meridian "
+             "(vs Simpson integral of the library's rm), coincident, very close and nearly antipodal pairs: symmetry, zero, "
+             "a*dlon on the equator, meridian integral 1e-4, great circle on the mean sphere. Parallax: directions incl. polar "
+             "caps, distances 1e-3..1e3 AU: squared chord x distance^2 bounded by sin^2(8.794 arcsec). Distinct case = input tuple.",
+        assumptions=["great-circle comparison uses the sphere of mean radius a(1 - f/3); tolerance 0.6 % (2f for user ellipsoids flatter than the Earth)",
+                     "the Simpson integral and the haversine central angle are computed by the harness (comparison in the spec)"])
+
+
+PLANS = {"C18": plan_C18, "C11": plan_C11, "C07": plan_C07, "C14": plan_C14, "C15": plan_C15, "C13": plan_C13, "C12": plan_C12, "C17": plan_C17, "C02": plan_C02, "C03": plan_C03, "C04": plan_C04, "C10": plan_C10, "C01": plan_C01, "C16": plan_C16, "C19": plan_C19}
